@@ -39,12 +39,12 @@ type Spec struct {
 	ClassAnn   *string `json:"class_ann"`   // Ingress: kubernetes.io/ingress.class annotation (nil = absent)
 	ClassField *string `json:"class_field"` // Ingress: spec.ingressClassName ; CRDs: spec.ingressClass ("" allowed)
 	// ingress
-	IngKind   string   `json:"ing_kind,omitempty"` // regular|master|minion
-	Hosts     []string `json:"hosts,omitempty"`
-	Paths     []string `json:"paths,omitempty"`
-	Challenge bool     `json:"challenge,omitempty"`
-	AuthSecret string  `json:"auth_secret,omitempty"` // Ingress: nginx.org/basic-auth-secret (the Secret never exists: a Configurator warning)
-	ExtraAnn  string   `json:"extra_ann,omitempty"` // value of an innocuous annotation (changes without bumping generation)
+	IngKind    string   `json:"ing_kind,omitempty"` // regular|master|minion
+	Hosts      []string `json:"hosts,omitempty"`
+	Paths      []string `json:"paths,omitempty"`
+	Challenge  bool     `json:"challenge,omitempty"`
+	AuthSecret string   `json:"auth_secret,omitempty"` // Ingress: nginx.org/basic-auth-secret (the Secret never exists: a Configurator warning)
+	ExtraAnn   string   `json:"extra_ann,omitempty"`   // value of an innocuous annotation (changes without bumping generation)
 	// vs / vsr / ts
 	Host     string      `json:"host,omitempty"`
 	Routes   [][2]string `json:"routes,omitempty"`   // vs: (path, route ref or "")
@@ -84,16 +84,18 @@ type History struct {
 
 // CtlStep is what the cluster sees when the same event goes through the real controller sync
 type CtlStep struct {
-	Events []k8s.VEvent       `json:"events"`
-	Writes []k8s.VStatusWrite `json:"writes"`
-	VErr   k8s.VErr           `json:"verr"`
-	Probe  k8s.VProbe         `json:"probe"`
-	Render []k8s.VMaster      `json:"render"`
-	Files  []string           `json:"files"` // per-resource configuration files that exist after the step
-	PT     [][2]string        `json:"pt"`    // tls-passthrough-hosts.conf: host -> unix socket
-	Hosts  map[string]string  `json:"hosts"`
-	LHosts map[string]string  `json:"lhosts"`
-	Res    []k8s.VRes         `json:"res"`
+	Events  []k8s.VEvent       `json:"events"`
+	Writes  []k8s.VStatusWrite `json:"writes"`
+	VErr    k8s.VErr           `json:"verr"`
+	Probe   k8s.VProbe         `json:"probe"`
+	Render  []k8s.VMaster      `json:"render"`
+	Files   []string           `json:"files"`              // per-resource configuration files that exist after the step
+	Served  []string           `json:"served"`             // the files that existed at the last reload: what NGINX runs
+	PTStale bool               `json:"pt_stale,omitempty"` // tls-passthrough-hosts.conf changed since the last reload
+	PT      [][2]string        `json:"pt"`                 // tls-passthrough-hosts.conf: host -> unix socket
+	Hosts   map[string]string  `json:"hosts"`
+	LHosts  map[string]string  `json:"lhosts"`
+	Res     []k8s.VRes         `json:"res"`
 }
 
 // recMgr is the fake NGINX manager that remembers which configuration files exist.
@@ -101,6 +103,17 @@ type recMgr struct {
 	*nginx.FakeManager
 	conf, stream map[string]string
 	passthrough  string
+	// what NGINX runs: the files and the passthrough map as they were at the last reload
+	served   []string
+	servedPT string
+	reloads  int
+}
+
+// Reload: NGINX reads the files that exist now
+func (m *recMgr) Reload(isEndpointsUpdate bool) error {
+	m.served, m.servedPT = m.files(), m.passthrough
+	m.reloads++
+	return m.FakeManager.Reload(isEndpointsUpdate)
 }
 
 func newRecMgr() *recMgr {
@@ -1278,7 +1291,7 @@ func runCtl(c *Case, anns map[string]int) (err error) {
 		if err != nil {
 			return err
 		}
-		c.Ctl = append(c.Ctl, CtlStep{Events: evs, Writes: writes, VErr: verr, Probe: v.LastProbe, Render: v.Mergeable(), Files: mgr.files(), PT: mgr.passthroughHosts(), Hosts: v.Arb.Hosts(), LHosts: v.Arb.LHosts(), Res: v.Arb.Resources()})
+		c.Ctl = append(c.Ctl, CtlStep{Events: evs, Writes: writes, VErr: verr, Probe: v.LastProbe, Render: v.Mergeable(), Files: mgr.files(), Served: append([]string{}, mgr.served...), PTStale: mgr.servedPT != mgr.passthrough, PT: mgr.passthroughHosts(), Hosts: v.Arb.Hosts(), LHosts: v.Arb.LHosts(), Res: v.Arb.Resources()})
 	}
 	wp := v.WeightProbe()
 	c.WeightProbe = &wp
